@@ -63,6 +63,12 @@ extra = {"C08": "yes: downloads after an abandoned earlier transfer on the same 
          "R12C06": "yes: a setter called with the very value the getter reports while the stored bytes are a padded encoding of it (raw call or peer)",
          "R12C09": "yes: an upload of 4200 bytes in 16-byte blocks (5000 / 8300 in the thorough tier): block numbers above 255, two-byte Block1 values",
          "R12C18": "yes: a link's attribute writer dropped without finish() (none / all / alternating links) under every fault position; the last-link clause of the fault judgement only applies to a finished link",
+         "R13C02": "caught at once, by a strengthening made while the change was being written: large datagrams encoded by hand (300 values under one number, 300 numbers, a 65 804-byte value, a payload above 64 KiB)",
+         "R13C03": "caught at once, likewise: reserved token lengths 9..15 with exactly / one more / one fewer than that many bytes after the header",
+         "R13C07": "caught at once, likewise: errors with an empty and with a 300-byte diagnostic text",
+         "R13C14": "caught at once, likewise: tokens that differ only in length or leading zero bytes ([] / [0] / [0,0] / [0;8], [1] / [0,1]); MC_Observe's two tokens are [] and [0]",
+         "R13C17": "caught at once, likewise: long link-format inputs (300 000 white-space characters before a link, 200 000-character targets / values / keys, 50 000 attributes, 30 000 links) evaluated natively; the harness dying of a stack overflow is reported as a violation",
+         "R13C20": "yes: freshness options (Max-Age 0 / 1) on the application's replies in the retention and mixed drivers",
          "R4C12": "yes: the two entry points of an exchange as separate steps with equal message ids on different endpoints (model MODE split, deferred responses in the mixed driver); a disturbed other key is reported under C12 in every branch",
          "C20": "yes: expiry under block-wise traffic on other keys (model `Other` now block-wise; driver scenario `expiry-traffic`)"}
 for d in sorted(glob.glob(os.path.join(ROOT, "seeded", "*", "meta.json"))):
